@@ -139,6 +139,22 @@ Theorem tri_fbank_fr_zero_outside_supports_hz : forall val (analytic half : bool
 Proof. exact fr_loop_zero_outside_hz_l. Qed.
 Print Assumptions tri_fbank_fr_zero_outside_supports_hz.
 
+(* exact contents of the loop, and even symmetry X[W - j] = X[j] of a real bank's full response
+   (what makes irfft(half) = ifft(full) and the impulse response real) *)
+Theorem tri_fbank_fr_value : forall val mirror n lo hi j, (0 <= lo)%Z -> (2 * (hi - 1) <= n)%Z ->
+  (lo <= j < hi)%Z ->
+  read_writes (fr_writes val mirror n lo hi) j = val j.
+Proof. exact fr_direct_value_l. Qed.
+Print Assumptions tri_fbank_fr_value.
+
+Theorem tri_fbank_fr_real_symmetric : forall val left right rate W j,
+  0 < rate -> (0 < W)%Z -> 0 <= left -> 0 <= right <= rate / 2 -> (0 < j < W)%Z ->
+  let ws := fr_writes val (negb false && negb false) (dft_size W false)
+                      (tri_left_idx left rate W) (Z.min (dft_size W false) (tri_right_idx right rate W + 1)) in
+  read_writes ws (W - j) = read_writes ws j.
+Proof. exact fr_loop_real_symmetric_l. Qed.
+Print Assumptions tri_fbank_fr_real_symmetric.
+
 Theorem gabor_freq_tail : forall eps l2 std xi omega, 0 < eps -> 0 < std ->
   gabor_diff_ang eps l2 std <= Rabs (xi - omega) -> gabor_fr_term l2 std xi omega <= eps.
 Proof. exact gabor_freq_tail_l. Qed.
